@@ -59,6 +59,14 @@ def addPathTx (i : Input) (f : Fam) : Bool :=
 def extNhNegotiated (i : Input) : Bool :=
   (mpFams i.loc).any (fun f => f.afi == 1 && hasMp i.rem f && hasEnh i.loc f && hasEnh i.rem f)
 
+/-- The model's two codecs read the capability sets as the RFCs do, for family `f`: the family is in the peer's
+    negotiated table, the sender's add-path-tx and the extended-next-hop flag are the RFC 7911 / RFC 8950 ones.
+    (A consistency condition between `PeerCodec::negotiate` as modelled and the definitions above.) -/
+def negAgree (i : Input) (f : Fam) : Bool :=
+  (rxOf (negotiate i.rem i.loc) f).isSome &&
+  (negotiate i.loc i.rem).addpathTx f == addPathTx i f &&
+  (negotiate i.loc i.rem).extNh == extNhNegotiated i
+
 /-! ### the quantifier domain -/
 
 def knownCapCodes : List Nat := [1, 2, 5, 6, 64, 65, 69, 70, 71, 73]
@@ -173,7 +181,12 @@ def outKey : DEntry → Option Nat
 
 def sortNat (l : List Nat) : List Nat := l.mergeSort (fun a b => a ≤ b)
 
-def sortAttrs (l : List Attr) : List Attr := l.mergeSort (fun a b => a.code ≤ b.code)
+def insertAttr (a : Attr) : List Attr → List Attr
+  | [] => [a]
+  | b :: bs => if a.code ≤ b.code then a :: b :: bs else b :: insertAttr a bs
+
+/-- attributes sorted by type code (insertion sort: attribute lists are short) -/
+def sortAttrs (l : List Attr) : List Attr := l.foldr insertAttr []
 
 /-- first element of `a` (sorted) that is missing from `b` (sorted), counting multiplicity -/
 def firstMissing : List Nat → List Nat → Option Nat
